@@ -70,7 +70,7 @@ class C16(Check):
             "literal, form feed) x newline {LF,CRLF,CR} x final newline {y,n} x encoding {none, utf-8 x3 spellings, latin-1, "
             "iso-8859-15, cp1252, koi8-r, gbk, BOM} x 3 cookie forms x cookie on line 1 / on line 2 after a shebang or a comment containing FF, NEL(0x85), FS or U+2028, contents encodable; "
             "evaluations = per file: forced write-back, File.write replacing each editable line (+undo), Rename of one token "
-            "(+undo), an edit after the newline convention was changed behind rope's back (+validate), new-file write/read-back; non-trivial = evaluations on files with a non-LF newline convention, a non-UTF-8 "
+            "(+undo), an edit after the newline convention was changed behind rope's back (+validate), a rewrite whose text declares another encoding (+undo), new-file write/read-back; non-trivial = evaluations on files with a non-LF newline convention, a non-UTF-8 "
             "codec, a BOM, no final newline or non-ASCII content; distinct by (file bytes, edit)")
     assumptions = ["expected bytes are computed from the line list, independently of rope's codec/newline code",
                    "mixed newline conventions and contents not encodable in the declared codec are outside the quantifier",
@@ -217,6 +217,30 @@ class C16(Check):
                     fh.write(data)
                 p.validate(p.root)
                 f.read()
+            # F: the new text declares another encoding than the file had: it is stored in the encoding it declares
+            if nhead and codec not in (None, "BOM"):
+                ci = nhead - 1
+                for codec2 in ("utf-8", "latin-1", "cp1252", "koi8-r"):
+                    if codec_of(codec2).replace("-", "").lower() == codec.replace("-", "").lower():
+                        continue
+                    new_lines = list(all_lines)
+                    new_lines[ci] = FORMS[form] % codec2
+                    try:
+                        want = expected_bytes(new_lines, nl, final, codec2)
+                    except UnicodeEncodeError:
+                        continue
+                    new_text = "\n".join(new_lines) + ("\n" if final else "")
+                    f.write(new_text)
+                    done("cookie-change")
+                    if rd() != want:
+                        fail("bytes-differ", "cookie-change", {"to": codec2, "got": repr(rd()), "want": repr(want)})
+                    back = f.read()
+                    if back != new_text:
+                        fail("readback-differs", "cookie-change", {"to": codec2, "got": repr(back), "want": repr(new_text)})
+                    p.history.undo()
+                    if rd() != data:
+                        fail("bytes-differ", "undo-cookie-change", {"to": codec2, "got": repr(rd())})
+                    f.read()
             # D: text written through rope reads back equal (new file, and through a new project)
             g = p.root.create_file("g.py")
             g.write(text)
@@ -232,6 +256,10 @@ class C16(Check):
                 res["passfeat"].append(sorted(basefeats))
             res["out"]["file-ok" if not res["fails"] else "file-bad"] = res["out"].get("file-ok", 0) + 1
             res["sample"] = {"bytes": repr(data), "codec": codec, "newline": nl, "final_newline": final}
+        except Exception as e:
+            # every call above is a documented use of the API on well-formed input: an exception is a failure of the property
+            import traceback
+            fail("internal:" + type(e).__name__, "api-call", {"exception": repr(e), "where": traceback.format_exc().splitlines()[-6:]})
         finally:
             p.close()
             self.scratch.drop(root)
